@@ -963,6 +963,24 @@ func (k Keeper) FilterServiceProviders(
 	return newProviders, totalPrices, "", nil
 }
 
+// GetServiceFees returns the total of the fees that requests to the given providers
+// will record for the consumer, i.e. the prices after time and volume discounts
+func (k Keeper) GetServiceFees(
+	ctx sdk.Context,
+	serviceName string,
+	providers []sdk.AccAddress,
+	consumer sdk.AccAddress,
+) sdk.Coins {
+	var serviceFees sdk.Coins
+
+	for _, provider := range providers {
+		binding, _ := k.GetServiceBinding(ctx, serviceName, provider)
+		serviceFees = serviceFees.Add(k.GetPrice(ctx, consumer, binding)...)
+	}
+
+	return serviceFees
+}
+
 // DeductServiceFees deducts the given service fees from the specified consumer
 func (k Keeper) DeductServiceFees(
 	ctx sdk.Context,
